@@ -264,6 +264,17 @@ def _impl(tier, seed, search):
                 L.check(f'{nm_}(multi):len', len(r[0]) == 3, dict(N=3), f'{nm_} on 3 poses gives {len(r[0])} values', sig='pose->twist(multi)')
                 if len(r[0]) == 3:
                     for j_ in range(3): L.close(f'{nm_}(multi)', np.asarray(r[0][j_], float).flatten(), np.asarray(r[1][j_], float).flatten(), 1e-12, max(1.0, float(np.max(np.abs(r[1][j_])))), dict(N=3, k=j_), what=f'value k of {nm_} on a multi-valued pose is not the single-valued result', sig='pose->twist(multi)')
+    # ---- obtuse rotations about near-degenerate axes: one or two leading components tiny (1e-7 .. 1e-4) but not zero -------------------
+    for lead_ in (1e-7, 1e-6, 1e-5, 1e-4):
+        for ax_, th_ in (((lead_, 0.6, 0.8), 2.0), ((0.0, 2 * lead_, 1.0), 3.0), ((lead_, lead_ * 3, 1.0), 2.5), ((0.6, lead_, -0.8), 1.8), ((lead_, -1.0, lead_ * 2), 2.9), ((-lead_, 0.8, 0.6), 1.7)):
+            a_ = np.array(ax_, float); a_ = a_ / np.linalg.norm(a_); K_ = skew(a_)
+            Rn = np.eye(3) + math.sin(th_) * K_ + (1 - math.cos(th_)) * K_ @ K_; Tn = np.eye(4); Tn[:3, :3] = Rn; Tn[:3, 3] = [0.3, -0.2, 0.5]
+            inp = dict(R=Rn, axis=a_, theta=th_)
+            ok, Lg = L.noraise('log-near-degenerate-axis', lambda: (b.trlog(Rn, check=False, twist=True), b.trlog(Tn, check=False, twist=True), b.trlog(Rn, check=False)), inp, 'trlog of an obtuse rotation about a near-degenerate axis', sig='log-so3:near-degenerate:raises')
+            if ok and finite_real(Lg[0]) and finite_real(Lg[1]) and finite_real(Lg[2]):
+                L.close('exp-log-near-degenerate-axis', ref_exp(skew(np.asarray(Lg[0], float))), Rn, TOL, 1.0, inp, what='exp(log R) differs from R for an obtuse rotation about an axis with a tiny leading component', sig='exp-log-so3')
+                L.close('exp-log-near-degenerate-axis-se3', ref_exp(skewa(np.asarray(Lg[1], float))), Tn, TOL, 1.0, inp, sig='exp-log-se3'); L.close('exp-log-near-degenerate-axis-mat', ref_exp(np.asarray(Lg[2], float)), Rn, TOL, 1.0, inp, sig='exp-log-so3')
+                L.close('log-near-degenerate-axis:value', np.asarray(Lg[0], float), a_ * th_, TOL, 1.0, inp, sig='exp-log-so3')
     # ---- quarter turns about generic axes (the sine of the angle is 1 to within rounding, on either side) ----------------------
     qaxes = [np.array([x_, y_, z_], float) for x_ in range(-4, 5) for y_ in range(-4, 5) for z_ in range(-4, 5) if (x_, y_, z_) != (0, 0, 0)]
     for k_, a_ in enumerate(qaxes if tier != 'quick' else qaxes[(seed % 3)::3]):
